@@ -76,7 +76,8 @@ class World:
         n0 = cfg.get('declared', self.nv)
         for i in range(cfg.get('n_mgrs', 2)):
             self.new_manager(i, [self.names[k] for k in range(n0)]
-                             if i == 0 else [])
+                             if i == 0 else [],
+                             ctor=cfg.get('ctor_perm') if i == 0 else None)
         self.real_dir = None
         if cfg.get('real_disk'):
             # real-disk slice: real open / os / shutil / shelve in a private
@@ -89,22 +90,36 @@ class World:
             self.fs.bind()
 
     # ------------------------------------------------------------------ mgrs
-    def new_manager(self, idx, declared):
+    def new_manager(self, idx, declared, ctor=None):
         D = seams.DD
         if idx < len(self.mgrs):
             # replacing a manager nobody holds: let parked handles of the old
             # one be finalized first, so that it is not collected together
             # with them (finalization order inside one collection is arbitrary)
             self.finalize()
+        levels = None
+        if ctor and declared:
+            # the constructor's `levels` argument: explicit levels, given in
+            # a dict whose insertion order differs from the level order
+            import random as _rnd
+            rr = _rnd.Random(ctor)
+            lv = list(range(len(declared)))
+            rr.shuffle(lv)
+            items = list(zip(declared, lv))
+            rr.shuffle(items)
+            levels = dict(items)
         if self.flavor == 'autoref':
-            api = D.autoref.BDD()
+            api = D.autoref.BDD(levels)
             raw = api._bdd
         else:
-            api = D.bdd.BDD()
+            api = D.bdd.BDD(levels)
             raw = api
         m = Mgr(idx, self.flavor, api, raw)
-        for nm in declared:
-            api.add_var(nm)
+        if levels is None:
+            for nm in declared:
+                api.add_var(nm)
+        else:
+            self.stats['ctor_with_levels'] += 1
         if idx < len(self.mgrs):
             self.mgrs[idx] = m
         else:
@@ -400,7 +415,14 @@ class World:
                         c = self.census(g)
                         extra = c.get(u, 0) - led[u]
                         if extra and r == ind[u] + c.get(u, 0) + (g.term_base if u == 1 else 0):
-                            # a live Function the handle table does not know
+                            # a live Function the handle table does not know:
+                            # kept alive by dd itself (e.g. memoized inside
+                            # another Function) or by a stray harness reference?
+                            if self.kept_alive_by_dd(g, u):
+                                # the count equals in-edges + live Functions,
+                                # which is what the property states
+                                self.stats['function_kept_alive_by_dd'] += 1
+                                continue
                             who = self.census_referrers(g, u)
                             raise seams.HarnessError(
                                 f'stray Function for node {u} (count {r}, ledger {led[u]}, census {c.get(u, 0)}): {who}')
@@ -417,6 +439,29 @@ class World:
                 if n is not None:
                     c[abs(n)] += 1
         return c
+
+    def kept_alive_by_dd(self, g, u):
+        """Is every unknown live Function on node u referenced from the
+        attribute dict of another Function (i.e. held by dd, not by us)?"""
+        F = seams.DD.autoref.Function
+        known = {id(s.ref) for s in self.slots}
+        funcs = [o for o in gc.get_objects() if type(o) is F]
+        dicts = {id(f.__dict__) for f in funcs}
+        unknown = [o for o in funcs if o.__dict__.get('manager') is g.raw
+                   and o.__dict__.get('node') is not None
+                   and abs(o.__dict__['node']) == u and id(o) not in known]
+        if not unknown:
+            return False
+        held = 0
+        for o in unknown:
+            refs = gc.get_referrers(o)
+            if any(isinstance(r, dict) and id(r) in dicts and r is not o.__dict__ for r in refs):
+                held += 1
+            elif any(isinstance(r, list) and any(x is r for x in r) for r in refs):
+                pass            # parked by the simulator (a self-referential cell): in the ledger
+            else:
+                return False
+        return held > 0
 
     def census_referrers(self, g, u):
         F = seams.DD.autoref.Function
